@@ -629,7 +629,7 @@ theorem SkipSt.init (e : Epoch) (hpos : 0 < e.total) (t : Nat) : SkipSt e t [] {
   show false = e.isQuorum 0
   exact (isMet_zero _ _ _ (by decide) hpos).symm
 
-theorem SkipSt.admit {e : Epoch} {t : Nat} {Y : List Nat} {st : SlotState} (hst : SkipSt e t Y st) {j : Nat} (hj : j ∉ Y) :
+theorem SkipSt.admits {e : Epoch} {t : Nat} {Y : List Nat} {st : SlotState} (hst : SkipSt e t Y st) {j : Nat} (hj : j ∉ Y) :
     st.checkSlashable ⟨.skip, t, 0, j⟩ = none ∧ st.shouldIgnore ⟨.skip, t, 0, j⟩ = false := by
   constructor
   · simp [SlotState.checkSlashable, hst.vFin, hst.vNotar]
